@@ -8,3 +8,43 @@ PROPS["C07"] = {
                "thorough": "all masks up to 3x3, 40 seeded up to 6x6, vectors n<=6, all block/complex masks up to 3x2/3x3, 30 block_crs, 12 hybrid"},
     "out": "floating-point rounding; Eigen backend and Eigen value types; float/long double as distinct IEEE formats; OpenMP execution (see C09)",
 }
+
+PROPS["C16"] = {
+    "S": [{"name": "c16", "src": "c16.cpp", "shards": 16, "solver_timeout_ms": {"quick": 20000, "thorough": 120000}}],
+    "explanation": "skyline LU, the pivoted small inverse, Householder QR and static_matrix algebra are executed at a symbolic scalar with ALL matrix/vector entries symbolic. Pivot tests, explicit-zero tests and pivot-choice comparisons are solver-decided forks; per feasible path z3 proves the exactness identities (A*solve(f)=f, A*inv(A)=I, A=QR, Q'Q=I, normal equations) as polynomial identities over the reals under the listed non-zero-divisor side conditions, and proves that every division of the LU factorisation is guarded by a zero test (zero pivot => exception).",
+    "bounds": {"quick": "skyline LU: all patterns with full diagonal n<=3 (entries non-zero), all patterns n<=2 with explicit zeros allowed, tridiagonal/arrow n<=6, band(5,2), 2x2/3x2 grids, 6 seeded 4x4..5x4; inverse n<=3 (all pivot orders, <=600 paths); QR shapes 1x1,2x1,1x2,3x1,1x3,4x1 and zero-column 2x2/3x2 in both storage orders; QR solve 1x1,2x1,3x1,1x2,1x3; static_matrix N<=3; solver timeout 20 s/query",
+               "thorough": "LU n<=4 sampled 1/16 + dense 4x4, explicit zeros n<=3, QR 2x2 full, static_matrix N<=4, 120 s/query"},
+    "out": "rounding / backward stability; QR with two or more non-trivial reflectors beyond 2x2 (nested radicals: z3 timeouts measured at 3x2); complex and block skyline LU; solver/eigen.hpp; Cuthill-McKee for symbolic graphs is decided by engine C",
+}
+
+PROPS["C06"] = {
+    "S": [{"name": "c06", "src": "c06.cpp", "shards": 16, "flags": ["-fno-access-control"], "solver_timeout_ms": {"quick": 20000, "thorough": 60000}}],
+    "explanation": "Each relaxation (damped Jacobi, SPAI-0, Gauss-Seidel, ILU(0), ILU(k), ILUP, ILUT; Chebyshev and SPAI-1 on concrete matrices) is constructed and applied by the real templates at a symbolic scalar. With the matrix entries, right-hand side, iterate and damping symbolic, z3 proves per pattern and per feasible path: the sweep equals x + M^-1(f - A x) for the documented splitting (triangular-solve identities for Gauss-Seidel, (LU)(x'-x) = damping*(f-Ax) with the factors read from the object), (LU)_ij = a_ij on the admitted pattern (pattern of A / level-of-fill<=k / pattern of A^(k+1)), LU = A whenever the exact factors fit, the exact solution is a fixed point of pre- and post-sweep, level-scheduled = serial triangular solve, and apply() ignores old output content.",
+    "bounds": {"quick": "all patterns with full diagonal n<=3 (entries non-zero, rows sorted) for Jacobi/SPAI-0/GS/ILU0; ILU(k=1) and ILUP(1) on all 3x3, ILU(2),ILU(3) sampled 1/4, ILUT(tau=0,p>n) n<=2 + 1/8 of 3x3; tridiagonal 4,5, arrow 4, 2x2 grid, band(4,2) incl. ILU(k=n); Chebyshev degree 1..3 (plain and scaled, Gershgorin) on 4 seeded SPD M-matrices n<=6, vectors symbolic; SPAI-1 on 8 seeded matrices n<=5; <=48 paths per case",
+               "thorough": "adds dense 4x4, arrow 5, 3x2 grid, 10 seeded 4x4, ILUP(2), Chebyshev degree<=5 on 12 matrices, SPAI-1 on 20"},
+    "out": "rounding; ILUT with tau>0 (threshold dropping is value dependent: only the exact-LU limit and triangularity are decided); Chebyshev with power-iteration bounds; complex and block value types (see C13); level-scheduled solves with more than one thread (see C09)",
+}
+
+PROPS["C01"] = {
+    "S": [{"name": "c01", "src": "c01.cpp", "shards": 16, "solver_timeout_ms": {"quick": 20000, "thorough": 60000}}],
+    "explanation": "Each of the 8 iterative solvers is executed by the real templates on a symbolic system. M-mode: matrix entries, right-hand side and initial guess symbolic, preconditioner either the identity or an ARBITRARY dense linear operator with symbolic entries; L-mode: concrete SPD M-matrix with the real AMG hierarchy as preconditioner, vectors symbolic. All inner coefficients are cut to fresh variables (truthfulness may not depend on them); the exits of the iteration are solver-decided forks. Per feasible path z3 proves res^2 <f,f> = ||f - A x||^2 (||P(f - A x)||^2 for left preconditioning) for the returned (x, res), the iteration bound, and with symbolic tol/abstol that an early exit implies the carried norm is below max(tol|f|, abstol).",
+    "bounds": {"quick": "maxiter k<=2 (k<=3 configs enumerated, M-mode runs k<=2; idrs/bicgstabl/lgmres k=1 on 3x3), patterns dense 2x2 and tridiagonal 3x3, restart M in {1,2}, L in {1,2}, s in {1,2}, K=1, both sides; arbitrary-P cases k=1; L-mode AMG (smoothed aggregation+spai0 on a 3x2 grid k<=2; aggregation+gauss_seidel 3x3 grid, smoothed aggregation+damped_jacobi n=7 for k=1); <=16 paths per case; feasibility queries 1 s (undecided => path explored anyway)",
+               "thorough": "k<=4 enumerated, M-mode k<=3 on tridiagonal 3x3, dense 3x3 k<=2, arbitrary P k<=2, L-mode k<=3, 48 paths per case"},
+    "out": "rounding drift of the recursively carried residual; right-hand sides with |f| < 2^-50 (documented trivial-solution exit, see C15); convergence of every combination within 100 iterations on model problems and Richardson's asymptotic rate (floating-point long-run behaviour: not decidable by this technique); complex / block value types",
+}
+
+PROPS["C03"] = {
+    "S": [{"name": "c03", "src": "c03.cpp", "shards": 16, "flags": ["-fno-access-control"]}],
+    "explanation": "The real amg constructor, level::step_down, rebuild() and the real coarsening policies run at a symbolic scalar. (a) One coarsening step with ALL matrix entries symbolic: every strong/weak decision is a solver-decided fork; per path z3 proves R = P^T and, with P and R cut to fresh variables on their pattern, coarse = (1/over_interp) R A P as a degree-3 polynomial identity. (b) Whole hierarchies on concrete dyadic M-matrices: every stored level matrix equals the exact Galerkin product of the level above, sizes strictly decrease, the coarsest level uses the direct solver iff rows<=coarse_enough and direct_coarse, and the direct solver solves the Galerkin system for a symbolic right-hand side. (c) rebuild(A') with a symbolic perturbation: transfer operators handle-identical, every level = R A' P, the action equals a fresh hierarchy assembled from A' with the recorded operators (for all f and all perturbations), 4A gives B/4, and rebuilding with A restores the original term vector.",
+    "bounds": {"quick": "step: tridiagonal 3,4 and dense 3x3, 4 coarsenings (+ over_interp 1.5, 2.0), <=24 paths; hierarchies: 3x3 and 4x3 grids, tridiagonal 8, coarse_enough in {1,2,3,5}, direct_coarse on/off, max_levels in {1,2,inf}, nonsymmetric variant; rebuild: 3x3 grid and tridiagonal 8, sequences A'|4A|A',A, perturbation symbolic on first and last row, 5 coarsening/relaxation pairs",
+               "thorough": "adds tridiagonal 5, 2x2 grid, arrow 4 (step); 4x4 grid, random n=10, band(12,2) (hierarchy, rebuild), 64 paths"},
+    "out": "rounding; row-merge SpGEMM (thread count > 16; see C08/C09); block value types; n beyond the bound",
+}
+
+PROPS["C02"] = {
+    "S": [{"name": "c02", "src": "c02.cpp", "shards": 16, "solver_timeout_ms": {"quick": 30000, "thorough": 120000}}],
+    "explanation": "The real amg::apply/cycle runs on concrete dyadic SPD M-matrices with SYMBOLIC right-hand sides. z3 (linear real arithmetic) proves B(af+bg) = aBf + bBg for all f, g; a repeated application performs the same operations as the first (raw operation log identical => bitwise) and contains no variable of earlier right-hand sides; apply() never reads the old output; amg(4A) = B/4 exactly (ILUT excepted). The operator matrix B is extracted exactly from the linear forms and z3 decides over a free vector v: B symmetric, v'Bv > 0 and v'(2B - BAB)v > 0 for all v != 0 (quadratic forms, QF_NRA), i.e. SPD and rho(I - BA) < 1.",
+    "bounds": {"quick": "matrices: 3x2 grid, tridiagonal 7, 3x3 grid (SPD/contraction queries for n<=9; Chebyshev n<=7); cycles: V, W, npre/npost in {1,2,3}, pre_cycles 2, smoother on the coarsest level, max_levels 2, coarse_enough in {1,2,4}; smoothed_aggregation+spai0 / aggregation+damped_jacobi / smoothed_aggregation+gauss_seidel on all 8 cycle settings; ruge_stuben+spai0, emin+damped_jacobi, ilu0, iluk, ilup, chebyshev, ilut on V and W",
+               "thorough": "adds 4x3 grid, random n=9, 4x4 grid and all cycle settings for every pair"},
+    "out": "rounding; n beyond the bound (B is extracted for n<=16 only); SPAI-1 inside AMG (nested radicals of the QR: no verdict within 120 s / 10 GB); block value types; non-symmetric smoothers and unequal npre/npost are checked for linearity/history/scaling only",
+}
